@@ -49,23 +49,23 @@ COMMON_FRAMES = [U('pyvc.frames', 'render_write_frame', 'render.write_frame'),
                  U('pyvc.frames', 'digest_reads_frame', 'digest.reads_frame'),
                  U('pyvc.frames', 'digest_injective', 'digest.distinguishes_options')]
 S_MORE = [K("k3::S-Switch"), K("k3::S-Case-Condition"), K("k3::S-Switch-nested"), K("k3::S-Case-OnError")]
-S_COMMENT = [K("k3::S-Comment-noninterp"), K("k3::S-Comment-drop"), K("k3::S-Comment-interp")]
+S_COMMENT = [K("k3::S-Comment-noninterp"), K("k3::S-Comment-drop"), K("k3::S-Comment-interp"), K("k3::S-Comment-dollar-name")]
 TAL_BASIC = [K("k3::S-Define"), K("k3::S-Define-clauses"), K("k3::S-Define-tuple"), K("k3::S-Condition"), K("k3::S-Content"),
              K("k3::S-Replace"), K("k3::S-Structure"), K("k3::S-OmitTag"),
              K("k3::S-OmitTag-empty"), K("k3::S-OmitTag-selfclosing"),
-             K("k3::S-Attribute"), K("k3::S-Attribute-quotes"), K("k3::S-Attribute-default-under-target"), K("k3::S-Define-nested-same"), K("k3::S-Attribute-dict"), K("k3::S-Attribute-dict-first"), K("k3::S-Literal"), K("k3::S-Combined"), K("k3::S-Repeat")]
+             K("k3::S-Attribute"), K("k3::S-Attribute-quotes"), K("k3::S-Attribute-default-under-target"), K("k3::S-Attribute-boolean-interp"), K("k3::S-Define-nested-same"), K("k3::S-Repeat-indent"), K("k3::S-Repeat-comprehension"), K("k3::S-Attribute-dict"), K("k3::S-Attribute-dict-first"), K("k3::S-Literal"), K("k3::S-Combined"), K("k3::S-Repeat")]
 
 RESERVED = [K("k3::S-Repeat-reserved"), K("k3::S-Define-reserved"), K("k3::S-Define-econtext"),
             K("k3::S-Define-tuple-reserved"), K("k3::S-Define-tuple-reserved-first"),
             K("k3::S-Repeat-tuple-reserved"), K("k3::S-Define-global-reserved"),
             K("k3::S-Define-global-tuple-reserved")]
 S_TALES = [K("k3::S-Pipe3"), K("k3::S-Pipe-prefix-middle"), K("k3::S-Same-not-twice"), K("k3::S-Same-exists-twice"), K("k3::S-Same-string-twice"), K("k3::S-Not"), K("k3::S-Exists"), K("k3::S-LambdaScope")]
-S_INTERP = [K("k3::S-Interp-braces"), K("k3::S-Cdata-entity"), K("k3::S-Cdata-twice"), K("k3::S-Interp-text"), K("k3::S-Interp-off"), K("k3::S-Interp-lines"),
+S_INTERP = [K("k3::S-Interp-braces"), K("k3::S-PI-interp"), K("k3::S-Cdata-entity"), K("k3::S-Cdata-twice"), K("k3::S-Interp-text"), K("k3::S-Interp-off"), K("k3::S-Interp-lines"),
             K("k3::S-Interp-percent"), K("k3::S-Cdata-then-text")]
 S_I18N = [K("k3::S-Translate-name"), K("k3::S-Translate-name-condition"), K("k3::S-Translate-id"), K("k3::S-Translate-empty"),
           K("k3::S-I18nDomain"), K("k3::S-I18nContext"), K("k3::S-I18nTarget"), K("k3::S-I18nAttributes"), K("k3::S-I18nAttributes-two"), K("k3::S-I18nAttributes-implicit-interp"),
           K("k3::S-Content-translate")]
-S_METAL = [K("k3::S-UseExternal"), K("k3::S-ExtendMacro"), K("k3::S-UseExternal-filler-define"), K("k3::S-TemplateBody-slot"), K("k3::S-MacroUseInternal"), K("k3::S-MacroBody"), K("k3::S-TwoMacros"),
+S_METAL = [K("k3::S-UseExternal"), K("k3::S-MacroBody-slots-nonascii"), K("k3::S-ExtendMacro"), K("k3::S-UseExternal-filler-define"), K("k3::S-TemplateBody-slot"), K("k3::S-MacroUseInternal"), K("k3::S-MacroBody"), K("k3::S-TwoMacros"),
            K("k3::S-MacroBody-slot-define"),
            K("k3::S-MacroUseInternal-after-expr")]
 K2Q = [K("compiler.py::K2.__quote"), K("compiler.py::K2.__quote@char"), K("compiler.py::K2.__convert"),
@@ -97,7 +97,8 @@ PROPS = {
         "fall through only on the five lookup-type exception classes (real class hierarchy "
         "axiomatised) and to propagate anything else; every schema additionally proves that each "
         "reached expression is evaluated exactly once and unreached ones never.",
-        S_TALES + TAL_BASIC + S_INTERP + S_MORE + [FRESH, K("utils.py::lookup_attr")] +
+        S_TALES + TAL_BASIC + S_INTERP + S_MORE + [FRESH, K("utils.py::lookup_attr"),
+                                                   K("k3::S-UseExternal-filler-define")] +
         [K("utils.py::_resolve_dotted@%d" % n) for n in (1, 2, 3)],
         ["the Python sub-grammar (comprehensions, lambdas) and NameLookupRewriteVisitor scoping",
          "tales.transform_attribute's rewrite of a.b into lookup_attr(a, 'b') (lookup_attr itself is under contract); ExpressionParser prefix dispatch",
@@ -125,7 +126,7 @@ PROPS = {
         "For a dynamic attribute the emitted code is proved to call the escape routine once with the "
         "attribute's own quote character and static text as default, to drop the attribute for None, "
         "and the escape routine itself (K2) maps `default` to the static text as written.",
-        [K("k3::S-Attribute"), K("k3::S-Attribute-quotes"), K("k3::S-Attribute-default-under-target"), K("k3::S-Attribute-dict"), K("k3::S-Attribute-dict-first")] + K2Q +
+        [K("k3::S-Attribute"), K("k3::S-Attribute-quotes"), K("k3::S-Attribute-default-under-target"), K("k3::S-Attribute-boolean-interp"), K("k3::S-Attribute-dict"), K("k3::S-Attribute-dict-first")] + K2Q +
         [U('bounded.units', 'attrs', 'B-ATTR'), U('bounded.units', 'split', 'B-SPLIT'),
          # which static attributes are template-language markup (dropped) and which only look like it
          U('pyvc.spelling', 'unit', 'spelling', needs_k3=True),
@@ -162,7 +163,7 @@ PROPS = {
         TAL_BASIC + S_TALES + S_INTERP + [K("k3::S-OnError-keep"), K("k3::S-I18nTarget"),
                                             K("k3::S-UseExternal"), K("k3::S-MacroUseInternal"),
                                             K("k3::S-MacroUseInternal-after-expr"),
-                                            K("template.py::BaseTemplate.render"), K("exc.py::ExceptionFormatter.__call__@records"), K("tal.py::RepeatDict.__call__"),
+                                            K("template.py::BaseTemplate.render"), K("exc.py::ExceptionFormatter.__call__@records"), K("k3::S-Bom-positions"), K("tal.py::RepeatDict.__call__"),
                                             K("utils.py::lookup_attr"),
                                             U('pyvc.frames', 'render_write_frame', 'render.write_frame')],
         ["create_formatted_exception itself (dynamic class creation; outside the subset)",
@@ -217,7 +218,8 @@ PROPS = {
                   # "equal arguments give equal output ... regardless of what was rendered before": what a
                   # shared loader hands out for a name must not depend on the loader's history
                   K("loader.py::cache.load"), K("zpt/loader.py::TemplateLoader.load"),
-                  K("loader.py::TemplateLoader.load"), K("parser.py::ElementParser.__init__")],
+                  K("loader.py::TemplateLoader.load"), K("parser.py::ElementParser.__init__"),
+                  K("loader.py::ModuleLoader._load")],
         "not_decided": ["thread interleavings (schedule-quantified; no schedule exploration in this family)",
                         "cross-process identity of output (follows from alpha-equivalence of generated "
                         "code; not checked yet)"],
@@ -290,6 +292,7 @@ PROPS = {
         [K("k3::S-Deferred"), K("k3::S-Deferred-empty"), K("k3::S-Deferred-twice"), K("k3::S-Strict-rejects"),
          K("k3::S-Strict-rejects-pipe-tail"), K("k3::S-Strict-rejects-pipe-middle"),
          K("k3::S-Strict-rejects-second-macro"), K("zpt/template.py::PageTemplateFile.__init__.post_init"),
+         K("k3::S-Deferred-switch"),
          U('pyvc.frames', 'strict_reads_frame', 'strict.reads_frame'),
          U('pyvc.frames', 'strict_identity', 'strict_identity', needs_k3=True),
          U('pyvc.frames', 'cook_error_frame', '_cook.error_frame')],
@@ -300,7 +303,7 @@ PROPS = {
         "text starts with markup characters.",
         [K("k3::S-TextMode"), K("k3::S-TextMode-lt"), K("k3::S-TextMode-endtag"), K("k3::S-Interp-percent"),
          K("k3::S-Interp-braces"), K("zpt/template.py::PageTextTemplateFile.render"),
-         K("zpt/template.py::PageTemplate.parse"),
+         K("zpt/template.py::PageTemplate.parse"), K("k3::S-TextMode-colliding-names"),
          K("zpt/loader.py::TemplateLoader.load"), K("loader.py::cache.load"),
          U('bounded.units', 'interp', 'B-INTERP')],
         ["delimiter search of Interpolator.__call__: bounded stand-in B-INTERP only (S-Interp-braces: two instances)"]),
@@ -324,7 +327,7 @@ PROPS = {
                       "once iff configured, to bind `error`, and to let non-Exceptions propagate.",
         "level_note": K3_NOTE,
         "units": [K("k3::S-OnError-keep"), K("k3::S-OnError-in-translate"), K("k3::S-OnError-static-body"),
-                  K("k3::S-OnError-two-streams"), K("k3::S-OnError-omit-expr"),
+                  K("k3::S-OnError-two-streams"), K("k3::S-OnError-omit-expr"), K("k3::S-OnError-interp-attribute"),
                   K("k3::S-OnError-dict-attributes"), FRESH],
         "not_decided": [],
         "assumptions": K3_ASSUME,
@@ -344,7 +347,7 @@ PROPS = {
                         # the sinks: every schema that inserts a value states which __quote call it goes through
                         K("k3::S-Content"), K("k3::S-Content-translate"), K("k3::S-Attribute"), K("k3::S-Attribute-quotes"), K("k3::S-Attribute-dict-first"),
                         K("k3::S-Interp-text"), K("k3::S-Interp-percent"), K("k3::S-Comment-interp"),
-                        K("k3::S-Cdata-then-text"), K("k3::S-Cdata-twice"),
+                        K("k3::S-Cdata-then-text"), K("k3::S-Cdata-twice"), K("k3::S-PI-interp"),
                         K("k3::S-OnError-keep")],
         "not_decided": ["sinks: which quote/entity each emitted call site passes (decided per schema: S-Content, S-Attribute, S-Interp-*, S-Comment-interp)",
                         "'same elements and attributes as for a harmless value' follows from G1-G3 by "
